@@ -672,10 +672,19 @@ static const scen_t SCEN[] = {
 };
 #define NSCEN (sizeof SCEN / sizeof SCEN[0])
 
+/* second table (families added later): bign96, pfok, g12s, dstu, stb99, btok, BMQV/BPACE, bels, bpki CSR */
+#ifdef C09_SCEN2
+#include "c09_scen2.h"
+#define NSCEN2 (sizeof SCEN2 / sizeof SCEN2[0])
+#endif
+
 static const scen_t* scen_find(const char* name)
 {
 	size_t i;
 	for (i = 0; i < NSCEN; ++i) if (strcmp(SCEN[i].name, name) == 0) return &SCEN[i];
+#ifdef C09_SCEN2
+	for (i = 0; i < NSCEN2; ++i) if (strcmp(SCEN2[i].name, name) == 0) return &SCEN2[i];
+#endif
 	return 0;
 }
 
@@ -696,5 +705,8 @@ static void do_list(void)
 {
 	size_t i;
 	for (i = 0; i < NSCEN; ++i) printf("%s%s:%s:%d", i ? " " : "", SCEN[i].name, SCEN[i].fn, SCEN[i].nvar);
+#ifdef C09_SCEN2
+	for (i = 0; i < NSCEN2; ++i) printf(" %s:%s:%d", SCEN2[i].name, SCEN2[i].fn, SCEN2[i].nvar);
+#endif
 }
 #endif
